@@ -23,6 +23,9 @@ pub struct Case {
     pub gitconfig: Option<String>,
     pub env: Vec<(String, String)>,
     pub stdin: Blob,
+    /// delta launches the producer itself (so that grep / blame input is recognised as such)
+    #[serde(default)]
+    pub child: Option<ChildSetup>,
 }
 
 const COLORS: &[&str] = &[
@@ -89,7 +92,7 @@ pub fn gen_case(seed: u64, idx: usize) -> Case {
             gc.push_str("[delta]\n\tblame-palette = red brightblue \"#102030\" purple\n");
         }
         args.push("--show-config".into());
-        return Case { kind: "show-config".into(), args, gitconfig: Some(gc), env: vec![], stdin: Blob::default() };
+        return Case { kind: "show-config".into(), args, gitconfig: Some(gc), env: vec![], stdin: Blob::default(), child: None };
     }
     let opts = gen::random_delta_opts(&mut rng);
     let mut args = opts.args.clone();
@@ -150,7 +153,33 @@ pub fn gen_case(seed: u64, idx: usize) -> Case {
         let n = rng.range(3, 25);
         ("grep", gen::grep_input(&mut rng, n))
     };
-    Case { kind: kind.into(), args, gitconfig, env: vec![], stdin: stdin.into() }
+    if rng.chance(1, 5) {
+        args.push("--hyperlinks".into());
+    }
+    // one rendering case in four: delta launches git/rg itself, so that blame and grep output is
+    // rendered by the blame / grep handlers (colour assignment, path headers, hyperlinks)
+    if rng.chance(1, 4) {
+        let which = rng.below(4);
+        let n = rng.range(4, 30);
+        let (kind2, cmd, out): (&str, Vec<&str>, Vec<u8>) = match which {
+            0 => ("launched-blame", vec!["git", "blame", "src/main.rs"], gen::blame_input(&mut rng, n)),
+            1 => ("launched-git-grep", vec!["git", "grep", "-n", "fn"], gen::grep_input(&mut rng, n)),
+            2 => ("launched-git-grep-W", vec!["git", "grep", "-W", "-n", "fn"], gen::grep_input(&mut rng, n)),
+            _ => {
+                let mut s = String::from("{\"type\":\"begin\",\"data\":{\"path\":{\"text\":\"src/x.rs\"}}}\n");
+                for i in 0..n {
+                    s.push_str(&format!("{{\"type\":\"match\",\"data\":{{\"path\":{{\"text\":\"src/x{}.rs\"}},\"lines\":{{\"text\":\"T{:06} fn abc() {{}}\\n\"}},\"line_number\":{},\"absolute_offset\":{},\"submatches\":[{{\"match\":{{\"text\":\"fn\"}},\"start\":8,\"end\":10}}]}}}}\n", i % 3, i, i + 1, i * 20));
+                }
+                ("launched-rg", vec!["rg", "fn"], s.into_bytes())
+            }
+        };
+        let mut a2 = args.clone();
+        for c in &cmd {
+            a2.push((*c).into());
+        }
+        return Case { kind: kind2.into(), args: a2, gitconfig, env: vec![], stdin: Blob::default(), child: Some(ChildSetup { names: vec!["git".into(), "rg".into()], stdout: out.into(), stderr: Blob::default(), stderr_first: false, exit: 0, git_version: "git version 2.45.1".into() }) };
+    }
+    Case { kind: kind.into(), args, gitconfig, env: vec![], stdin: stdin.into(), child: None }
 }
 
 fn spec_for(case: &Case, hash_seed: u64, rchunks: Vec<i64>, rdelays: Vec<i64>) -> RunSpec {
@@ -159,6 +188,7 @@ fn spec_for(case: &Case, hash_seed: u64, rchunks: Vec<i64>, rdelays: Vec<i64>) -
     spec.gitconfig = case.gitconfig.clone();
     spec.env = case.env.clone();
     spec.stdin = case.stdin.clone();
+    spec.child = case.child.clone();
     spec.plan = Plan::basic(hash_seed);
     spec.plan.rchunks = rchunks;
     spec.plan.rdelays_ms = rdelays;
